@@ -2019,7 +2019,9 @@ func getFunc(n *node) {
 
 		fct := reflect.MakeFunc(n.typ.TypeOf(), func(in []reflect.Value) []reflect.Value {
 			// Allocate and init local frame. All values to be settable and addressable.
-			fr2 := newFrame(fr, len(n.types), fr.runid())
+			// The run id is the one of the global frame, which follows evaluations,
+			// and not the one of fr, which dates back to the creation of the closure.
+			fr2 := newFrame(fr, len(n.types), fr.root.runid())
 			d := fr2.data
 			for i, t := range n.types {
 				d[i] = reflect.New(t).Elem()
